@@ -53,6 +53,21 @@ def run(ctx: core.Ctx):
     jobs, desc = e2e.build_jobs(ctx)
     results = core.pmap(e2e.eval_state, jobs)
     e2e.book(ctx, results, ("C04.", "Q4."), lambda fam, n: GROUND if n <= 3 or (n == 4 and not ctx.quick) else (GROUND if n == 4 and "readout" in fam else BOUNDED))
+    # compressed circuits: cost and depth of compress_preparation_circuit(c) = metadata of the class of c|0>, for inputs on every register layout
+    from .c07 import circuit_jobs, eval_circuit, LAYOUTS
+    cj = [j for j in circuit_jobs(ctx) if len(j) > 3 or len(j[2]) > 2 or j[0] == 2]
+    for r, j in zip(core.pmap(eval_circuit, cj), cj):
+        small = len(j[2]) <= 2 and j[0] <= 3
+        for famname, ok, key, what, rp in r:
+            if not famname.startswith("C04."):
+                continue
+            fam = ctx.family(famname + (".le2gates_le3qubits_all_register_layouts" if small else ".seeded_circuits"), GROUND if small else BOUNDED, "native+oracle",
+                             "two-qubit cost and depth of the compressed circuit equal the lookup metadata of the class of circuit|0>")
+            fam.exhaustive = small
+            ctx.record(fam, PROVED if ok else REFUTED, {"circuit": rp["circuit"][:60], "register_layout": rp.get("register_layout")} if fam.total < 2 else None)
+            if not ok:
+                ctx.violate(fam, key[:300], what, rp)
+    ctx.extra["register_layouts"] = list(LAYOUTS)
     ctx.extra["domains"] = desc
     ctx.extra["ground_time_s"] = round(time.time() - t, 2)
     ctx.trust("oracle gate counting / ASAP depth / tableau simulator / LC orbits", "M9 (depth invariant under reversal and single-qubit gates)", "Q3")
@@ -65,6 +80,13 @@ def run(ctx: core.Ctx):
 
 def replay(data):
     inp = data["input"]
+    if "job" in inp and "circuit" in inp:
+        from .c07 import eval_circuit
+        n, conn, gl, layout = inp["job"]
+        bad = [r for r in eval_circuit((n, conn, [(nm, list(q)) for nm, q in gl], layout)) if not r[1] and r[0].startswith("C04")]
+        for r in bad:
+            print("REPRODUCED:", r[0], r[3])
+        return 1 if bad else 0
     if "paulis" not in inp:
         bad = [r for r in table_job((inp["n"], inp["connectivity"])) if not r[0] and r[1] == data["key"]]
         for r in bad:
